@@ -370,22 +370,41 @@ def make_predict_harness(cfg, tw):
         cost = [eng.real("cost%d" % i) for i in range(n)]
         plab = [eng.int("pl%d" % i, 0, 2) for i in range(n)]
         clus = [eng.int("cl%d" % i, 0, n - 1) for i in range(n)]
+        fresh = None
         if model == "sup":
-            opf = models.build_opf(sup_mod.SupervisedOPF, branch, T)
-            X, Y, I = models.data_for(branch, n, [0] * n)
-            g = tw.mod("opfython.core").Subgraph(X, Y, I)
             eng.assume(z3.And([z3.And(c.e >= 0, c.e < models.fmax()) for c in cost]))
             # conquest order: every permutation with non-decreasing cost (what C01 establishes)
             perms = list(itertools.permutations(range(n)))
             order = list(perms[eng.choose(len(perms), "order")])
             eng.assume(z3.And([cost[order[a]].e <= cost[order[a + 1]].e for a in range(n - 1)] or [True]))
-            g.idx_nodes = order
-            for i in range(n):
-                g.nodes[i].cost = cost[i]
-                g.nodes[i].predicted_label = plab[i]
-            g.trained = True
-            opf.subgraph = g
+
+            def build_sup(rel=None):
+                o = models.build_opf(sup_mod.SupervisedOPF, branch, T)
+                X, Y, I = models.data_for(branch, n, [0] * n)
+                gg = tw.mod("opfython.core").Subgraph(X, Y, I)
+                gg.idx_nodes = list(order)
+                for i in range(n):
+                    gg.nodes[i].cost = cost[i]
+                    gg.nodes[i].predicted_label = plab[i]
+                    if rel is not None:
+                        gg.nodes[i].relevant = rel[i]
+                gg.trained = True
+                o.subgraph = gg
+                return o, gg
             st = dict(cost=cost, plab=plab, order=order)
+            rel = None
+            if cfg.get("symrel"):
+                # "after any number of earlier predict calls": the only state those calls leave behind in a
+                # supervised model is the relevance mark of each node -- here arbitrary (over-approximates every
+                # history); the same query on a never-used model (all marks clear) must get the same label
+                rel = [eng.int("rel%d" % i, 0, 1) for i in range(n)]
+                st["rel"] = rel
+                fresh = []
+                for q in range(nq):
+                    o2, _ = build_sup()
+                    Xq, _, Iq = models.data_for(branch, 1, None, idx=[n + q])
+                    fresh.append(o2.predict(Xq, Iq))
+            opf, g = build_sup(rel)
         else:
             cls = knn_mod.KNNSupervisedOPF if model == "knn" else uns_mod.UnsupervisedOPF
             kw = dict(max_k=k) if model == "knn" else dict(min_k=1, max_k=k)
@@ -412,7 +431,7 @@ def make_predict_harness(cfg, tw):
             Xq, _, Iq = models.data_for(branch, len(b), None, idx=[n + q for q in b])
             results.append(opf.predict(Xq, Iq))
             snaps.append(snapshot(opf, model))
-        return dict(T=T, st=st, results=results, snaps=snaps, opf=opf)
+        return dict(T=T, st=st, results=results, snaps=snaps, opf=opf, fresh=fresh)
     return harness
 
 
@@ -491,6 +510,8 @@ def predict_post(eng, cfg, out, info):
                 lab, cl = label_of(bi, pos)
                 if q not in first:
                     first[q] = (lab, cl, bi, pos)
+                    if out.get("fresh") is not None:
+                        eng.check("same-label-as-on-a-never-used-model[q%d]" % q, lab == to_int(out["fresh"][q][0]), info)
                 else:
                     l0, c0, b0, p0 = first[q]
                     eng.check("same-label-at-any-batch-position[b%d.p%d vs b%d.p%d]" % (b0, p0, bi, pos), lab == l0, info)
